@@ -787,12 +787,12 @@ func (fx *Fx) applyCall(st *State, fn *types.Func, recv *Val, args []Val, call *
 			ev := fx.specEval(env, ec.Expr)
 			st.logEvent(ev.T)
 		}
-	} else if sp.Flags["emits"] == "opaque" {
+	} else if sp.Flags["emits"] == "opaque" || sp.Flags["emits"] == "opaque+calls" {
 		m2 := *ms
 		m2.emits = false
 		m2.opaque = false
 		fx.havocMods(st, &m2)
-		st.havocLogOpaque()
+		st.havocLogKinds(sp.Flags["emits"] == "opaque+calls")
 		st.havocHeap("NC")
 	} else {
 		fx.havocMods(st, ms)
@@ -807,6 +807,12 @@ func (fx *Fx) applyCall(st *State, fn *types.Func, recv *Val, args []Val, call *
 	for _, e := range sp.Ensures {
 		env := &SpecEnv{fx: fx, st: st, old: pre, bound: bound, pos: specPos, pkg: calleePkg}
 		st.assume(fx.specBool(env, e.Expr))
+	}
+	if sp.Flags["countresult"] != "" && len(out) > 0 && out[0].S == "Bool" {
+		// per-activation ghost counters of the direct calls of this callee: [2*code] calls, [2*code+1] calls that returned true
+		nrt := st.heap("NRT", "(Array Int Int)")
+		id := c.codeId(key)
+		st.setHeap("NRT", "(Array Int Int)", fmt.Sprintf("(store (store %s %d (+ (select %s %d) 1)) %d (+ (select %s %d) (ite %s 1 0)))", nrt, 2*id, nrt, 2*id, 2*id+1, nrt, 2*id+1, out[0].T))
 	}
 	return out
 }
